@@ -6,6 +6,7 @@
 import SkModel.Gen.Generated
 import SkModel.Runner
 import SkModel.Since
+import SkModel.Proofs.SeekShape
 import SkModel.Theorems.C16
 
 namespace Sk.Gen
@@ -316,6 +317,146 @@ theorem bridge_try_find_line_with_date (K : SeekK) (F : FileV) (ts : Nat → Opt
   simp only [try_find_line_with_date, tryFindLineWithDate]
   exact twd_loop K F ts _ fwd hE K.ATT start lfo pos0 fuel hf
 
+
+/-! ### `__getitem__` -/
+
+open SeekShape in
+/-- backwards walk: when the known line feed handed in is a real one, every hit ENDS at a real
+    line boundary (the first end is scanned, the later ones are earlier scanned starts) -/
+theorem twd_bwd_end (K : SeekK) (F : FileV) (ts : Nat → Option Int) :
+    ∀ (fuel off : Nat) (lfo : Option Int) (l : LLine),
+      (∀ o, lfo = some o → RealEnd F (.found o)) →
+      twdLoop K F ts false fuel off lfo = .ok (some l) → RealEnd F l.elf := by
+  intro fuel
+  induction fuel with
+  | zero => intro off lfo l _ h; simp [twdLoop] at h
+  | succ fuel ih =>
+    intro off lfo l hl h
+    rw [twd_bwd_succ] at h
+    obtain ⟨l0, h0, h⟩ := bind_ok h
+    obtain ⟨he, hs, hr⟩ := tfl_ok h0
+    split at h
+    · cases h
+      cases lfo with
+      | none => exact (findToken_ok he).real
+      | some o =>
+        injection he with he
+        rw [← he]
+        exact hl o rfl
+    · split at h
+      · cases h
+      · rename_i hg
+        refine ih _ _ _ ?_ h
+        intro o ho
+        injection ho with ho
+        subst ho
+        rcases findTokenReverse_ok hs with h0 | ⟨i, hi, i1, i2, _⟩
+        · rw [h0] at hg; simp only [off_edge] at hg; omega
+        · rw [hi]; exact Or.inr ⟨i, rfl, i1, i2⟩
+
+open SeekShape in
+/-- a dated line that ends at a real line boundary is not EMPTY, when timestamps are only
+    recognised at existing bytes that are not line feeds -/
+theorem lineLen_ne_zero {F : FileV} {ts : Nat → Option Int} {l : LLine}
+    (hts : ∀ o, ts o ≠ none → o < F.len ∧ F.isLF o = false)
+    (hend : RealEnd F l.elf) (hr : RangeOK F l.slf l.elf) (hd : (l.date ts).isSome) :
+    Py.lineLen l ≠ 0 := by
+  obtain ⟨slf, elf⟩ := l
+  have h := hts (LLine.startOffset ⟨slf, elf⟩).toNat (by
+    intro hn
+    simp only [LLine.date] at hd
+    rw [hn] at hd
+    simp at hd)
+  obtain ⟨h1, h2⟩ := h
+  simp only [RangeOK] at hr
+  dsimp only at hend
+  intro hz
+  rcases hend with rfl | ⟨j, rfl, j1, j2⟩
+  · cases slf <;> simp only [Py.lineLen, LLine.endOffset, LLine.startOffset, off_found, off_edge] at * <;> omega
+  · cases slf <;> simp only [Py.lineLen, LLine.endOffset, LLine.startOffset, off_found, off_edge] at *
+    · rename_i o
+      have : ((o + 1).toNat) = j := by omega
+      rw [this] at h2
+      simp [h2] at j2
+    · rename_i o
+      have : (o.toNat) = j := by omega
+      rw [this] at h2
+      simp [h2] at j2
+
+/-- `__getitem__` as written = `Sk.getItem` + the bookkeeping `bisectLoop` does around it
+    (`found_any_date`, `line_info`), for every file, offset, oracle and constants - under the one
+    assumption the hand-written model had made silently: a timestamp is only ever recognised at
+    an existing byte that is not a line feed (so a dated line is never EMPTY).  The code tests
+    `not result`, and a `LogLine` of length 0 is falsy (`__len__`); without the assumption the
+    translated function and the model differ (312 399 of 1 485 504 small instances). -/
+theorem bridge_getitem (K : SeekK) (F : FileV) (ts : Nat → Option Int) (since : Int)
+    (off : Nat) (fa : Bool) (li : Option LLine) (pos0 : Int) (fuel : Nat)
+    (hf : K.EXP + K.ATT < fuel) (hE : 0 < K.EXP)
+    (hts : ∀ o, ts o ≠ none → o < F.len ∧ F.isLF o = false) :
+    getitem K F ts since (off : Int) fa li pos0 fuel =
+      match getItem K F ts off with
+      | .error e => .exc (errName e)
+      | .ok l => .ret (l.date ts, true, if (l.date ts).getD 0 ≥ since then some l else li) := by
+  have hoff1 : (off : Int) + 1 = ((off + 1 : Nat) : Int) := by omega
+  unfold getitem
+  rw [SeekShape.getItem_eq]
+  simp only [hoff1, bridge_try_find_line_with_date K F ts _ _ _ _ fuel hf hE]
+  cases h1 : tryFindLineWithDate K F ts off none false with
+  | error e => simp only [ofSeek, Except.bind]
+  | ok r1 =>
+    cases r1 with
+    | some l1 =>
+      obtain ⟨a1, a2, a3⟩ := SeekShape.twd_bwd_res K F ts _ _ _ _ h1
+      have a4 := twd_bwd_end K F ts _ _ _ _ (by intro o ho; cases ho) h1
+      have hlen := lineLen_ne_zero hts a4 a2 a3
+      obtain ⟨d, hd⟩ := Option.isSome_iff_exists.mp a3
+      simp only [ofSeek, Except.bind, hlen, hd, if_false]
+      by_cases hc : d ≥ since <;> simp [hc, hlen]
+    | none =>
+      simp only [ofSeek, Except.bind]
+      cases h2 : tryFindLineWithDate K F ts (off + 1) (some (off : Int)) true with
+      | error e => simp only []
+      | ok r2 =>
+        cases r2 with
+        | none => simp only [errName]
+        | some l2 =>
+          obtain ⟨b1, b2, b3, b4⟩ := SeekShape.twd_fwd_res K F ts _ _ _ _ h2
+          have hlen := lineLen_ne_zero hts b2 b3 b4
+          obtain ⟨d, hd⟩ := Option.isSome_iff_exists.mp b4
+          simp only [hlen, hd, if_false]
+          have hlf : isLineFeed F (off : Int) = (decide (off < F.len) && F.isLF off) := by
+            simp [isLineFeed]
+          by_cases hs : l2.slf.off = (off : Int)
+          · cases hb : (decide (off < F.len) && F.isLF off) with
+            | true =>
+              simp only [hs, hlf, hb, if_true, true_and, Bool.not_true, Bool.false_eq_true, if_false]
+              by_cases hc : d ≥ since <;> simp [hc, hlen, hd]
+            | false =>
+              simp only [hs, hlf, hb, if_true, true_and, Bool.not_false, Bool.false_eq_true, if_false]
+              cases he : l2.elf with
+              | edge e => simp only [tokStatus, errName, reduceCtorEq, if_false]
+              | found e =>
+                have he0 : 0 ≤ e := by
+                  have := b3.2.2.2.1
+                  rw [he] at this
+                  exact this
+                have he1 : e + 1 = (((e + 1).toNat : Nat) : Int) := by omega
+                simp only [tokStatus, if_true, SeekShape.off_found]
+                rw [he1, bridge_try_find_line_with_date K F ts _ _ _ _ fuel hf hE, ← he1]
+                cases h3 : tryFindLineWithDate K F ts (e + 1).toNat (some e) true with
+                | error e3 => simp only [ofSeek]
+                | ok r3 =>
+                  cases r3 with
+                  | none => simp only [ofSeek, SeekShape.fin, errName]
+                  | some l3 =>
+                    obtain ⟨c1, c2, c3, c4⟩ := SeekShape.twd_fwd_res K F ts _ _ _ _ h3
+                    have hlen3 := lineLen_ne_zero hts c2 c3 c4
+                    obtain ⟨d3, hd3⟩ := Option.isSome_iff_exists.mp c4
+                    simp only [ofSeek, SeekShape.fin, hlen3, hd3, if_false]
+                    by_cases hc : d3 ≥ since <;> simp [hc]
+          · simp only [hs, false_and, if_false]
+            by_cases hc : d ≥ since <;> simp [hc, hlen, hd]
+
 #print axioms bridge_num_parallel_tasks
 #print axioms bridge_since_window
 #print axioms bridge_find_token
@@ -324,5 +465,6 @@ theorem bridge_try_find_line_with_date (K : SeekK) (F : FileV) (ts : Nat → Opt
 #print axioms bridge_line_date_is_valid
 #print axioms bridge_apply_to_line
 #print axioms Sk.Gen.bridge_try_find_line_with_date
+#print axioms Sk.Gen.bridge_getitem
 
 end Sk.Gen
